@@ -33,6 +33,12 @@ func (w *faultWriter) Write(b []byte) (int, error) {
 		n := 0
 		if w.calls == w.failAt {
 			n = w.keep
+			if n < 0 { // all but that many bytes
+				n = len(b) + n
+				if n < 0 {
+					n = 0
+				}
+			}
 			if n > len(b) {
 				n = len(b)
 			}
@@ -109,9 +115,9 @@ func runFault(c J) J {
 	if ref["outcome"] == "ok" {
 		n := w0.calls
 		for k := 1; k <= n+1; k++ {
-			for _, keep := range []int{0, 1, 1 << 20} {
+			for _, keep := range []int{0, 1, 1 << 20, -1} {
 				for _, entry := range []string{"FRender", "ParseAndFRender"} {
-					if entry == "ParseAndFRender" && (rs.path != "" || keep == 1) {
+					if entry == "ParseAndFRender" && (rs.path != "" || keep == 1 || keep == -1) {
 						continue
 					}
 					r, _ := one(entry, k, keep)
